@@ -53,6 +53,7 @@ def xspec(spec, rng):
     xs["terms"] = terms
     xs["K"] = [rng.randrange(50) for _ in spec["rules"]]
     xs["coef"] = [[rng.randrange(1, 10) for _ in r["rhs"]] for r in spec["rules"]]
+    xs["form"] = [rng.choice([0, 0, 1, 2, 3]) for _ in spec["rules"]]
     return xs
 
 
@@ -63,19 +64,33 @@ def _expr(xs, i):
     return e
 
 
+def _assign(xs, i):
+    """the value assignment of rule i in one of several equivalent spellings that mention $$ once,
+    twice or three times (an emitter that rewrites only some occurrences computes another value)"""
+    e = "(%s) %% %d" % (_expr(xs, i), MOD)
+    form = xs.get("form", [0] * len(xs["rules"]))[i]
+    if form == 1:
+        return "$$ = 0; $$ = %s" % e
+    if form == 2:
+        return "$$ = %s; if ($$ < 0) { $$ = 0 }" % e
+    if form == 3:
+        return "$$ = 1; $$ = $$ + %d; $$ = %s" % (i, e)
+    return "$$ = %s" % e
+
+
 def render_x(xs, target, pkg, obj, trace):
     tags = xs["tags"]
     lines = []
     if target == "go":
         prologue = "package %s\nimport \"fmt\"\nimport \"strings\"\nvar _ = strings.ToUpper\nvar _ = fmt.Sprint" % pkg
         union = " a int\n b int"
-        actions = ["Steps++; if Steps > %d { panic(\"STEPLIMIT\") }; Log = append(Log, %d); $$ = (%s) %% %d" %
-                   (STEP_LIMIT, i + 1, _expr(xs, i), MOD) for i in range(len(xs["rules"]))]
+        actions = ["Steps++; if Steps > %d { panic(\"STEPLIMIT\") }; Log = append(Log, %d); %s" %
+                   (STEP_LIMIT, i + 1, _assign(xs, i)) for i in range(len(xs["rules"]))]
     else:
         prologue = "// generated for verification"
         union = " a :number;\n b :number;"
-        actions = ["Steps++; if (Steps > %d) { throw new Error(\"STEPLIMIT\") }; Log.push(%d); $$ = (%s) %% %d" %
-                   (STEP_LIMIT, i + 1, _expr(xs, i), MOD) for i in range(len(xs["rules"]))]
+        actions = ["Steps++; if (Steps > %d) { throw new Error(\"STEPLIMIT\") }; Log.push(%d); %s" %
+                   (STEP_LIMIT, i + 1, _assign(xs, i)) for i in range(len(xs["rules"]))]
     out = ["%{\n" + prologue + "\n%}\n", "%union {\n" + union + "\n}\n"]
     for t in xs["terms"]:
         num = xs.get("nums", {}).get(t)
@@ -499,7 +514,7 @@ def render_conc(xs, pkg):
             out.append(" " + s)
         if r.get("prec"):
             out.append(" %%prec %s" % r["prec"])
-        out.append(" { note(c, %d); $$ = (%s) %% %d }" % (i + 1, _expr(xs, i), MOD))
+        out.append(" { note(c, %d); %s }" % (i + 1, _assign(xs, i)))
     out.append(" ;\n%%\n")
     out.append("""
 var mu sync.Mutex
